@@ -54,18 +54,24 @@ Record asched := mkAS {
 
 Definition nonempty_s (s : string) : bool := match s with EmptyString => false | _ => true end.
 
-Definition valid_cron (o : oracles) (c : string * list string * string) : bool :=
+(** [hash] is the key of the JobConfig (namespace/name), "" when it has no name yet: every
+    expression must parse with the empty hash id AND with the id the scheduler will use
+    (validateCronScheduleHashID; before the repair of finding F18 only the empty id was tried) *)
+Definition parses_for (o : oracles) (hash : string) (e : string) : bool :=
+  or_parse o "" e && (negb (nonempty_s hash) || or_parse o hash e).
+
+Definition valid_cron (o : oracles) (hash : string) (c : string * list string * string) : bool :=
   let '(e, es, tz) := c in
   let n := ((if nonempty_s e then 1 else 0) + (match es with [] => 0 | _ => 1 end))%nat in
   Nat.eqb n 1 &&
-  (negb (nonempty_s e) || or_parse o "" e) &&
-  forallb (or_parse o "") es &&
+  (negb (nonempty_s e) || parses_for o hash e) &&
+  forallb (parses_for o hash) es &&
   (negb (nonempty_s tz) || or_tz o tz).
 
-Definition valid_sched (o : oracles) (s : option asched) : bool :=
+Definition valid_sched (o : oracles) (hash : string) (s : option asched) : bool :=
   match s with
   | None => true
-  | Some s => match as_cron s with Some c => valid_cron o c | None => false end
+  | Some s => match as_cron s with Some c => valid_cron o hash c | None => false end
   end.
 
 (** CronSchedule.GetExpressions *)
@@ -135,10 +141,10 @@ Record ajc := mkAJC {
   ac_tmpl : jtmpl
 }.
 
-Definition valid_jc (o : oracles) (jc : ajc) : bool :=
+Definition valid_jc (o : oracles) (hash : string) (jc : ajc) : bool :=
   Nat.leb (String.length (ac_name jc)) 49 &&
   valid_tmpl (ac_tmpl jc) && valid_conc (ac_policy jc) (ac_maxc jc) &&
-  valid_sched o (ac_sched jc) && valid_options (ac_opts jc).
+  valid_sched o hash (ac_sched jc) && valid_options (ac_opts jc).
 
 (** ** Job *)
 Record ajob := mkAJ {
